@@ -364,6 +364,12 @@ class WebSocketApp:
             self._callback(self.on_close, close_status_code, close_reason)
 
         def setSock(reconnecting: bool = False) -> None:
+            if reconnecting and not self.keep_running:
+                # close() was called while this reconnect was pending: the
+                # run has ended, no further connection attempt is made.
+                teardown()
+                return
+
             if reconnecting and self.sock:
                 self.sock.shutdown()
 
